@@ -769,6 +769,10 @@ def r1111(ctx):
 
 
 def run(ctx):
+    ctx.rule("R-11.15", "the high-acceptance rule of a zero swap is evaluated on weights computed from the paths at hand: high_acc_swap computes all four weights (each path in each ensemble) with compute_weight - a cached Path.weight does not survive copy / store / reverse (shared with C09 R-9.17)", floor=4)
+    from . import c09 as _c09o
+    from .shared import RuleProxy as _RP11o
+    ctx.attempt(_c09o.r917, _RP11o(ctx, "R-11.15", " (the weight of a path handed over by the scheduler is 0.0 after Path.copy / PathStorage.output: the division guard sets the acceptance probability to 1 and every zero swap that reaches the test is accepted whatever the draw)"))
     ctx.rule("R-11.14", "the QuanTIS acceptance rule is evaluated on the energies of the exchanged configurations: every stored frame carries the energy of its own configuration (one energy entry per stored frame in the in-process engines; shared with C12 R-12.24)", floor=2)
     from . import c12 as _c12n
     ctx.attempt(_c12n.energies_per_frame, ctx, "R-11.14", " - quantis_swap_zero reads V0 / V1 from interior frames of the old paths and accepts or rejects the swap on energy differences of other configurations")
@@ -809,6 +813,7 @@ def run(ctx):
 
 
 VARIANTS = [
+    B("c11-old-weight-from-the-path-attribute", "infretis/core/tis.py", "    c2_old = compute_weight(paths[1], intf1, ens_moves[1])", "    c2_old = paths[1].weight", "R-11.15", control=True, why="seeded C11_o"),
     B("c11-ase-energy-per-md-step", ASE, "            if (i) % (self.subcycles) == 0:\n                ekin.append(atoms.get_kinetic_energy())\n                vpot.append(self.calc.results[\"energy\"])\n", "            ekin.append(atoms.get_kinetic_energy())\n            vpot.append(energy)\n            if (i) % (self.subcycles) == 0:\n", "R-11.14", control=True, why="seeded C11_n"),
     B("c11-turtle-budget-without-subcycles", TURTLE, "steps=path.maxlen * self.subcycles,", "steps=path.maxlen,", "R-11.13", control=True, why="seeded C11_m"),
     B("c11-dump-config-index-by-truthiness", ENGBASE_REL, "        if idx is None:", "        if not idx:", "R-11.12", control=True, why="seeded C11_l"),
